@@ -149,6 +149,95 @@ func validSweep(c *explore.Ctx) {
 
 var foldBases = []byte{'a', 'Q', '5', 0x00, 0x7f, '@', '[', '`', '{', ' '}
 
+// ---- surroundings: the operands are windows of a larger buffer, with spare capacity behind them; what lies
+// outside the window (before it, and behind it within the capacity) must not matter
+
+var hostile = []byte{0x80, 0x7f, 0x5f, 0x00, 0xff, 0x1f, 'A', 0x20}
+
+func surroundings(c *explore.Ctx) {
+	n := c.Choose(maxLen(c, 41, 73)) // window length 0..40 / 0..72
+	out := hostile[c.Choose(len(hostile))]
+	ar := arena(512)
+	var digest uint64
+	var cases int64
+	for _, fill := range []byte{'a', 'Z', '~', ' '} {
+		for off := 0; off < 17; off++ {
+			for _, spare := range []int{0, 1, 7, 8, 9, 64} {
+				for i := range ar[:256] {
+					ar[i] = out
+				}
+				b := ar[off : off+n : off+n+spare]
+				for i := range b {
+					b[i] = fill
+				}
+				// a second operand equal up to case, elsewhere in the same hostile buffer
+				o := ar[300 : 300+n : 300+n+spare]
+				for i := range ar[280:400] {
+					ar[280+i] = out
+				}
+				for i := range o {
+					o[i] = fill ^ 0x20
+					if lower(fill) == fill && (fill < 'a' || fill > 'z') {
+						o[i] = fill
+					}
+				}
+				check := func(pos, val int) {
+					wv, wp := refValid(b), refValidPrint(b)
+					gv, gvs, gp, gps := ascii.Valid(b), ascii.ValidString(str(b)), ascii.ValidPrint(b), ascii.ValidPrintString(str(b))
+					cases++
+					var bits uint64
+					for k, g := range []bool{gv, gvs, gp, gps} {
+						if g {
+							bits |= 1 << k
+						}
+					}
+					if gv != wv || gvs != wv {
+						c.Fail("Valid/surroundings", "Valid/ValidString of a %d-byte window (offset %d, %d spare bytes, %#x outside, fill %q, byte %#x at %d) = %v/%v, want %v", n, off, spare, out, fill, val, pos, gv, gvs, wv)
+					}
+					if gp != wp || gps != wp {
+						c.Fail("ValidPrint/surroundings", "ValidPrint/ValidPrintString of a %d-byte window (offset %d, %d spare bytes, %#x outside, fill %q, byte %#x at %d) = %v/%v, want %v", n, off, spare, out, fill, val, pos, gp, gps, wp)
+					}
+					if val < 0x80 { // fold functions: ASCII operands only
+						we, wpre, wsuf := refEqualFold(b, o), refHasPrefixFold(b, o), refHasSuffixFold(b, o)
+						ge, ges := ascii.EqualFold(b, o), ascii.EqualFoldString(str(b), str(o))
+						gpre, gsuf := ascii.HasPrefixFold(b, o), ascii.HasSuffixFold(b, o)
+						for k, g := range []bool{ge, ges, gpre, gsuf} {
+							if g {
+								bits |= 16 << k
+							}
+						}
+						if ge != we || ges != we || gpre != wpre || gsuf != wsuf {
+							c.Fail("Fold/surroundings", "EqualFold/EqualFoldString/HasPrefixFold/HasSuffixFold of %d-byte windows (offset %d, %d spare bytes, %#x outside, fill %q, byte %#x at %d) = %v/%v/%v/%v, want %v/%v/%v/%v", n, off, spare, out, fill, val, pos, ge, ges, gpre, gsuf, we, we, wpre, wsuf)
+						}
+					}
+					digest += mix(uint64(n)<<40|uint64(off)<<32|uint64(spare)<<24|uint64(pos+1)<<8|uint64(val&0xff), bits^uint64(fill)<<56)
+				}
+				check(-1, 0)
+				for pos := 0; pos < n; pos++ {
+					for _, val := range []int{0x80, 0x7f, 0x1f, 0x20, 0x7e, 'a', 'A'} {
+						b[pos] = byte(val)
+						check(pos, val)
+					}
+					b[pos] = fill
+				}
+			}
+		}
+	}
+	c.Inner(cases)
+	c.Count("digest", int64(digest))
+	c.Nontrivial(uint64(n)<<8 | uint64(out))
+	if c.Failed() {
+		c.Outcome("fail")
+	} else if n == 0 {
+		c.Outcome("empty")
+	} else {
+		c.Outcome("accepts-and-rejects")
+	}
+	if c.WantSample() {
+		c.Case(map[string]any{"len": n, "outside": fmt.Sprintf("%#x", out), "offsets": "0..16", "spare_capacities": "0,1,7,8,9,64"})
+	}
+}
+
 func foldSweep(c *explore.Ctx) {
 	n := 1 + c.Choose(maxLen(c, 72, 136))
 	// the bytes around the varied pair: word-at-a-time folding lets a neighbour's borrow or carry leak into a lane,
@@ -417,6 +506,7 @@ func Spec() *explore.Spec {
 		ID: "C20",
 		Families: []*explore.Family{
 			{Name: "valid-sweep", Variants: both, ShardDepth: 2, Body: validSweep, Doc: "every (length, alignment 0..31, position, byte value 0..255) single deviation from an all-valid string, 4 fillers"},
+			{Name: "surroundings", Variants: both, ShardDepth: 2, Body: surroundings, Doc: "operands that are windows of a larger buffer: window length 0..40 (thorough 72) x 17 offsets x spare capacity {0,1,7,8,9,64} x 8 values of the bytes outside the window (0x80, 0x7f, 0x5f, 0x00, 0xff, 0x1f, 'A', space) x 4 fillers x 7 deviating bytes at every position: Valid / ValidPrint / EqualFold / HasPrefixFold / HasSuffixFold and their String variants answer from the window alone"},
 			{Name: "fold-pairs", Variants: both, ShardDepth: 2, Body: foldSweep, Doc: "every ordered pair of ASCII bytes at every position of equal-length operands, the other positions filled with each of 10 neighbour classes (letters of both cases, digit, NUL, DEL, space, and the bytes next to the letter ranges) for lengths <= 12 (thorough 24), one (thorough three) above"},
 			{Name: "affix-lengths", Variants: both, ShardDepth: 2, Body: affixSweep, Doc: "every (len s, len affix) combination with single deviations"},
 			{Name: "aliased-operands", Variants: both, ShardDepth: 2, Body: aliasSweep, Doc: "both operands are views of one buffer: 5 x 5 start offsets x every pair of lengths x 3 contents"},
